@@ -735,6 +735,9 @@ func (g *CFG) flagStep(env flagEnv, n ast.Node) flagEnv {
 					}
 				}
 			}
+			if class == "" && !isBool && p.isSentinelError(rhs) {
+				class = "nonnil"
+			}
 			if class == "" {
 				if rid, isID := rhs.(*ast.Ident); isID {
 					if w := p.ObjOf(rid); w != nil && env[w] != "" {
